@@ -26,6 +26,7 @@ def main() -> int:
     ap.add_argument("--ids", default=None)
     ap.add_argument("--tier", default="quick")
     ap.add_argument("--all", action="store_true")
+    ap.add_argument("--wt", action="store_true", help="do not touch /repo: apply the patch in a scratch worktree and point the checks at it (VERIF_REPO)")
     a = ap.parse_args()
     patch = os.path.abspath(a.patch)
     if a.all:
@@ -35,22 +36,28 @@ def main() -> int:
     else:
         m = re.search(r"(C\d\d)", patch)
         ids = [m.group(1)] if m else []
-    if subprocess.run(["git", "-C", REPO, "status", "--porcelain", "--untracked-files=no"], capture_output=True, text=True).stdout.strip():
+    target = REPO
+    if a.wt:
+        target = tempfile.mkdtemp(prefix="seedwt_", dir="/tmp")
+        os.rmdir(target)
+        subprocess.run(["git", "-C", REPO, "worktree", "add", "-q", "--detach", target, "HEAD"], check=True)
+    elif subprocess.run(["git", "-C", REPO, "status", "--porcelain", "--untracked-files=no"], capture_output=True, text=True).stdout.strip():
         print("refusing: /repo has uncommitted changes", file=sys.stderr)
         return 2
     backup = tempfile.mkdtemp(prefix="evid_")
     shutil.copytree(os.path.join(VERIF, "evidence"), os.path.join(backup, "evidence"))
-    rc = subprocess.run(["git", "-C", REPO, "apply", patch]).returncode
+    rc = subprocess.run(["git", "-C", target, "apply", patch]).returncode
     if rc != 0:
         print("patch does not apply", file=sys.stderr)
+        if a.wt:
+            subprocess.run(["git", "-C", REPO, "worktree", "remove", "--force", target])
         return 2
     results = {}
     try:
         for pid in ids:
             env = dict(os.environ)
-            env["VERIF_SCRATCH"] = env.get("VERIF_SCRATCH", "")
-            if not env["VERIF_SCRATCH"]:
-                env.pop("VERIF_SCRATCH")
+            if a.wt:
+                env["VERIF_REPO"] = target
             p = subprocess.run(["./check", pid, "--tier", a.tier], cwd=VERIF, capture_output=True, text=True, env=env)
             viol = [ln for ln in p.stdout.splitlines() if ln.startswith("VIOLATION")]
             first = ""
@@ -64,7 +71,10 @@ def main() -> int:
             results[pid] = {"exit": p.returncode, "violations": len(viol), "first": first, "harness_errors": len(errs), "first_error": errs[0][:300] if errs else ""}
             print(f"{pid} exit={p.returncode} violations={len(viol)} harness_errors={len(errs)} first={first or (errs[0][:300] if errs else '')}", flush=True)
     finally:
-        subprocess.run(["git", "-C", REPO, "checkout", "--", "."])
+        if a.wt:
+            subprocess.run(["git", "-C", REPO, "worktree", "remove", "--force", target])
+        else:
+            subprocess.run(["git", "-C", REPO, "checkout", "--", "."])
         shutil.rmtree(os.path.join(VERIF, "evidence"), ignore_errors=True)
         shutil.copytree(os.path.join(backup, "evidence"), os.path.join(VERIF, "evidence"))
         shutil.rmtree(backup, ignore_errors=True)
